@@ -28,11 +28,11 @@ Definition x_create_ts_credentials (domain user password : bytes) : bytes :=
 Definition x_create_ts_authinfo (auth_info : bytes) : bytes :=
   der_seq (der_ctx 0 (der_small_int 2) ++ der_ctx 2 (der_octets auth_info)).
 
-(* read_ts_server_challenge: parse, then nego_tokens.inner[0] (index panic on an empty SEQUENCE OF) *)
+(* read_ts_server_challenge: parse, then nego_tokens.inner.get(0) (repaired, C07 #11: an empty SEQUENCE OF is an error) *)
 Definition x_read_ts_server_challenge (p : prof) (stream : bytes) : outcome bytes :=
   match der_ts_request p stream with
   | Ok (t :: _) => Ok t
-  | Ok [] => Panic
+  | Ok [] => Err EInvalidOptionalField
   | Err e => Err e
   | Panic => Panic
   | Spin => Spin
